@@ -229,6 +229,9 @@ def function(func=None, *, version=0):
             log_ = log.RecordLog()
             with disable(), log.add(log_):
                 value = func(*args, **kwargs)
+            # Discard the unusable old entry, so that an interrupted write
+            # leaves a prefix of the new entry and nothing else.
+            f.truncate()
             pickle.dump((value, log_), f)
             log.debug('[cache.function {}] store'.format(hkey))
             return value
@@ -388,6 +391,9 @@ class Recursion(types.Immutable, metaclass=_RecursionMeta):
                                 stop = True
                                 value = None
                         log.debug('[cache.Recursion {}.{}] store'.format(hkey, i))
+                        # Discard the old entry, if any, so that an interrupted
+                        # write leaves a prefix of the new entry and nothing else.
+                        f.truncate()
                         pickle.dump((log_, stop, value), f)
                 if stop:
                     return
